@@ -280,12 +280,23 @@ def rule2_static_init(ctx, fl, v):
     spins = [ic for ic in g.order if ic.op == 'icmp' and const_int(ic.ops[1]) == INITING and g.in_loop(ic) and
              all(k in g.insts and g.insts[k].op == 'load' and g.insts[k].volatile for k in g.sources(ic.ops[0]))]
     ctx.ob('C16.2', 'handle[%s]: losers spin while initializing' % fl, len(spins) >= 1, 'a thread that lost the election waits for the converter', loc=g.loc)
+    for ic in spins:
+        lp = lib.loop_containing(g, ic)
+        okp = False
+        for cond, pol in lib.cond_chain(g, ic.id, True):
+            for br, t, f_ in g.cond_edges(cond):
+                eq_t = t if (pol == (ic.pred == 'eq')) else f_
+                ne_t = f_ if (pol == (ic.pred == 'eq')) else t
+                if lp is not None and eq_t in lp['blocks'] and ne_t not in lp['blocks']:
+                    okp = True
+        ctx.ob('C16.2', 'handle[%s]: the wait continues exactly while the magic word reads "initializing"' % fl, okp,
+               'the loop is left when the converter has published the magic number, not before and not never', loc=ic.loc)
     for r in g.exits():
         tests = [ic for ic in g.order if ic.op == 'icmp' and const_int(ic.ops[1]) in (MAGIC_NO, INITING)]
         ok = any(g.dominates_f(p, r) for p in pubs) or not _reach_without(g, r, pubs, tests, MAGIC_NO, INITING)
         ctx.ob('C16.2', 'handle[%s]: returns only with a converted mutex' % fl, ok,
                'every return is preceded by the publication, by observing magic_no, or by leaving the spin on initializing', loc=r.loc)
-    ctx.floor('C16.2', 18)
+    ctx.floor('C16.2', 20)
 
 
 def _reach_without(g, ret, pubs, tests, MAGIC_NO, INITING):
@@ -559,6 +570,8 @@ def run(ctx):
 WRAP = 'src/myth_wrap_pthread.c'
 OPTS = 'src/myth-ld.opts'
 MUTANTS = [
+    {'name': 'losers of the conversion wait while the magic word is NOT initializing (sweep M0338)', 'expect': 'C16.2',
+     'edits': [(WRAP, "      while (*magic_p == myth_mutex_magic_no_initializing) { }", "      while (*magic_p != myth_mutex_magic_no_initializing) { }")]},
     {'name': 'real_pthread_attr_getdetachstate dispatches through the inheritsched slot (seed2 C16/m2)', 'expect': 'C16.8',
      'edits': [('src/myth_real.c', "  if (!real_function_table.pthread_attr_getdetachstate) ensure_real_functions();\n  assert(real_function_table.pthread_attr_getdetachstate);\n  return real_function_table.pthread_attr_getdetachstate(attr, detachstate);",
                 "  if (!real_function_table.pthread_attr_getinheritsched) ensure_real_functions();\n  assert(real_function_table.pthread_attr_getinheritsched);\n  return real_function_table.pthread_attr_getinheritsched(attr, detachstate);")]},
